@@ -159,3 +159,74 @@ Proof.
   - simpl. repeat (constructor; [unfold in_space; lia|]). constructor.
   - vm_compute. reflexivity.
 Qed.
+
+(* ------------------------------------------------------------------------------------------ *)
+(* audit follow-up: the 18-bit reading of the core mask; no empty region word; a block that is     *)
+(* full for some cores only                                                                        *)
+(* ------------------------------------------------------------------------------------------ *)
+Theorem flood_fill_packets_mask18 : forall cs pk, ffcs_packets cs = Ok pk ->
+  map packet_pair18 pk = map packet_pair pk.
+Proof.
+  intros cs pk Hpk. unfold ffcs_packets in Hpk. destruct (compress cs) as [out| | |] eqn:Hout; try discriminate.
+  simpl in Hpk. inversion Hpk. subst pk. clear Hpk.
+  destruct (compress_sorted cs out Hout) as [_ Hw]. rewrite !map_map.
+  apply map_ext_in. intros [r m] Hin. rewrite Forall_forall in Hw. destruct (Hw _ Hin) as [_ Hm]. simpl in Hm.
+  unfold packet_pair18, packet_pair. simpl fst. simpl snd. rewrite ffcs_arg1_digits by lia.
+  unfold nn_flood_fill_core_select. change (2 ^ 18) with 262144 in *. change (2 ^ 24) with 16777216. f_equal. lia.
+Qed.
+
+Lemma local_pairs_blocks : forall n bx by_ sel rc, (n <= 3)%nat -> base_ok n bx by_ ->
+  length sel = 18%nat -> Forall (fun m => 0 <= m < 65536) sel ->
+  In rc (local_pairs (region_code bx by_ (level_of n)) sel) -> word_blocks (fst rc) <> 0.
+Proof.
+  intros n bx by_ sel rc Hn Hb Hl Hs Hrc.
+  destruct (group_all 0 0 sel) as [[_ Hok] _]. rewrite Forall_forall in Hs.
+  unfold local_pairs in Hrc. apply in_map_iff in Hrc. destruct Hrc as [e [<- He]].
+  apply (proj1 (py_sorted_In _ _)) in He. destruct (Hok e He) as [Hne [Hin _]]. simpl fst.
+  rewrite local_word by (try assumption; apply Hs; exact Hin).
+  unfold base_ok in Hb.
+  assert (H4 : by_ mod 4 = 0 /\ 0 <= bx < 256 /\ 0 <= by_ < 256).
+  { destruct (side_cases n Hn) as [Hs' | [Hs' | [Hs' | Hs']]]; rewrite Hs' in Hb; lia. }
+  assert (Hm : 0 <= fst e < 65536) by (apply Hs; exact Hin).
+  assert (Hlv : 0 <= level_of n <= 3) by (unfold level_of; lia).
+  destruct (decode_word bx by_ (level_of n) (fst e)) as [_ [_ [_ [D4 _]]]]; lia.
+Qed.
+
+Lemma regions_blocks : forall n, (n <= 3)%nat -> forall (t : tree n) rc, wf n t ->
+  In rc (regions n t) -> word_blocks (fst rc) <> 0.
+Proof.
+  induction n as [|k IH]; intros Hn t rc Hwf Hrc.
+  - destruct Hwf as [Hb [Hl Hs]]. rewrite regions_O in Hrc. apply (local_pairs_blocks O _ _ _ rc Hn Hb Hl Hs Hrc).
+  - destruct Hwf as [[Hb [Hl Hs]] [Hlen Hch]]. rewrite regions_S in Hrc. apply in_app_or in Hrc.
+    destruct Hrc as [Hrc | Hrc]; [apply (local_pairs_blocks (S k) _ _ _ rc Hn Hb Hl Hs Hrc)|].
+    apply in_flat_map in Hrc. destruct Hrc as [j [Hj Hrc]]. apply child_order_range in Hj.
+    destruct (child k t j) as [c|] eqn:Hc; [|destruct Hrc].
+    destruct (Hch j c Hj Hc) as [Hwc _]. apply (IH ltac:(lia) c rc Hwc Hrc).
+Qed.
+
+Theorem compress_no_empty_region : forall cs out, compress cs = Ok out ->
+  Forall (fun rc => word_blocks (fst rc) <> 0) out.
+Proof.
+  intros cs out Hout.
+  assert (Hall : Forall in_space cs) by (apply compress_ok_iff; exists out; exact Hout).
+  destruct (add_all_spec cs _ root_new Hall) as [t' [Hadd [[Hwf _] _]]].
+  assert (E : out = py_sorted (regions 3 t')).
+  { unfold compress in Hout. rewrite Hadd in Hout. cbn [bind] in Hout. congruence. }
+  subst out. apply Forall_forall. intros rc Hrc. apply (proj1 (py_sorted_In _ _)) in Hrc.
+  apply (regions_blocks 3 (le_n 3) t' rc Hwf Hrc).
+Qed.
+
+(* the 4x4 block at (8, 4): all 16 chips ask for core 1, all but chip (11, 7) ask for core 2 *)
+Definition ex_partly_full : list core :=
+  flat_map (fun i => (8 + i mod 4, 4 + i / 4, 1) :: (if i =? 15 then [] else [(8 + i mod 4, 4 + i / 4, 2)]))
+           [0; 1; 2; 3; 4; 5; 6; 7; 8; 9; 10; 11; 12; 13; 14; 15].
+
+Lemma ex_partly_full_ok :
+  Forall in_space ex_partly_full /\ length ex_partly_full = 31%nat /\
+  compress ex_partly_full = Ok [(131136, 2); (134709247, 4)] /\
+  word_level 131136 = 2 /\ word_blocks 131136 = 64 /\ word_level 134709247 = 3 /\ word_blocks 134709247 = 32767.
+Proof.
+  split; [|split; [reflexivity | split; [vm_compute; reflexivity | repeat split]]].
+  apply Forall_forall. intros c Hc. vm_compute in Hc.
+  repeat (destruct Hc as [<- | Hc]; [unfold in_space; lia|]). destruct Hc.
+Qed.
